@@ -15,7 +15,7 @@ from vlib.workload import case_rng, clear_typelib_caches, per_shard, quiet
 ID = "C05"
 LEVEL = "exploration"
 RULE = ("synthesised module sets with adversarial naming (small shared pool of field names across parent/child/sibling classes, the same "
-        "class name defined in two modules and both reachable from one root, diamond sharing, aliases/NewTypes as members); at EVERY "
+        "class name defined in two modules and both reachable from one root, a module that re-binds its class names to a second revision with both revisions reachable from one root, diamond sharing, aliases/NewTypes as members); at EVERY "
         "composite node of every root (collection, fixed tuple, mapping, structured class) the routine's result on a member-wise "
         "decomposed input is compared with the composite rebuilt from independently obtained member routines, for unmarshal (wire "
         "forms, with one member corrupted for exception parity) and marshal (valid values); structured sources in their shapes (instance of the target class itself or of a subclass holding unconverted values, mapping, "
@@ -28,9 +28,9 @@ ASSUMPTIONS = [
 ]
 PLAN = {"quick": dict(programs=4000, values=3, depth=3), "thorough": dict(programs=30000, values=6, depth=5)}
 FLOORS = {"quick": {"unmarshal_nodes_compared": 70000, "marshal_nodes_compared": 70000, "exception_parity_checked": 100000, "shape_sets_compared": 30000,
-                    "same_name_two_modules": 800, "builds_watched_for_warnings": 6000, "own_class_instance_sources": 20000, "reordered_sources": 15000},
+                    "same_name_two_modules": 800, "builds_watched_for_warnings": 6000, "own_class_instance_sources": 20000, "reordered_sources": 15000, "revised_module_roots": 250},
           "thorough": {"unmarshal_nodes_compared": 1500000, "marshal_nodes_compared": 1500000, "exception_parity_checked": 600000,
-                       "shape_sets_compared": 150000, "same_name_two_modules": 8000, "builds_watched_for_warnings": 55000, "own_class_instance_sources": 100000, "reordered_sources": 100000}}
+                       "shape_sets_compared": 150000, "same_name_two_modules": 8000, "builds_watched_for_warnings": 55000, "own_class_instance_sources": 100000, "reordered_sources": 100000, "revised_module_roots": 2000}}
 COMPOSITE = ("coll", "fixed", "mapping", "struct")
 
 
@@ -321,6 +321,116 @@ def two_module_program(rng, opts):
     return progA, progB, [root, far]
 
 
+# leaf rules for the revised-module scenario: source text -> [(wire form, value)] - fixed by the harness, no library call involved
+REV_LEAVES = {
+    "int": [("1", 1), (2.0, 2), ("-7", -7)],
+    "str": [(1, "1"), (2.5, "2.5"), ("x", "x")],
+    "float": [("1.5", 1.5), (2, 2.0)],
+    "decimal.Decimal": [("1.50", __import__("decimal").Decimal("1.50")), (3, __import__("decimal").Decimal(3))],
+    "datetime.date": [("2020-01-02", __import__("datetime").date(2020, 1, 2))],
+    "uuid.UUID": [("12345678-1234-5678-1234-567812345678", __import__("uuid").UUID("12345678-1234-5678-1234-567812345678"))],
+}
+REV_WIRE = {"int": lambda v: v, "str": lambda v: v, "float": lambda v: v, "decimal.Decimal": str, "datetime.date": lambda v: v.isoformat(), "uuid.UUID": str}
+REV_HEAD = {"dataclass": "@dataclasses.dataclass\nclass {n}:\n", "namedtuple": "class {n}(typing.NamedTuple):\n", "typeddict": "class {n}(typing.TypedDict):\n"}
+
+
+def ident(x):
+    """Class-identity-sensitive rendering (two revisions of a class share their qualified name)."""
+    import dataclasses
+
+    if dataclasses.is_dataclass(x) and not isinstance(x, type):
+        return ("dc", id(type(x)), tuple((f.name, ident(getattr(x, f.name))) for f in dataclasses.fields(x)))
+    if isinstance(x, tuple) and hasattr(type(x), "_fields"):
+        return ("nt", id(type(x)), tuple(ident(v) for v in x))
+    if isinstance(x, dict):
+        return ("dict", tuple(sorted(((ident(k), ident(v)) for k, v in x.items()), key=repr)))
+    if isinstance(x, (list, tuple)):
+        return (type(x).__name__, tuple(ident(v) for v in x))
+    return (type(x).__name__, repr(x))
+
+
+def revised_module_case(sh, rng):
+    """One module defines Item/Holder, something is built for them, then the module RE-BINDS both names to a second revision whose
+    member has another type; a root declared afterwards reaches both revisions (the first through the names it was saved under).
+    Routines built for the first revision before the re-binding are not used afterwards: only the root declared last is judged."""
+    import sys
+    import types
+
+    from typelib import graph
+
+    t1, t2 = rng.sample(sorted(REV_LEAVES), 2)
+    flav = rng.choice(["dataclass", "dataclass", "namedtuple", "typeddict"])
+    name = f"vrev_{rng.randrange(16**8):08x}"
+    mod = types.ModuleType(name)
+    mod.__file__ = f"/verif/out/generated/{name}.py"
+    sys.modules[name] = mod
+    head = REV_HEAD[flav]
+    rev = ("import dataclasses, datetime, decimal, typing, uuid\n" if True else "")
+    src1 = rev + head.format(n="Item") + f"    v: {t1}\n" + head.format(n="Holder") + "    x: Item\n    y: Item\n" + "ItemV1, HolderV1 = Item, Holder\n"
+    far = rng.choice(["ItemV1", "list[ItemV1]", "dict[str, ItemV1]", "typing.Optional[ItemV1]", "tuple[ItemV1, Item]"])
+    fields = [("old", "HolderV1"), ("new", "Holder"), ("spare", far)]
+    rng.shuffle(fields)
+    src2 = (head.format(n="Item") + f"    v: {t2}\n" + head.format(n="Holder") + "    x: Item\n    y: Item\n"
+            + "@dataclasses.dataclass\nclass Root:\n" + "".join(f"    {f}: {t}\n" for f, t in fields))
+    try:
+        exec(compile(src1, mod.__file__, "exec", dont_inherit=True), mod.__dict__)
+        warm = rng.choice(["codec", "unmarshaller", "marshaller", "static_order", "routines", "none"])
+        with quiet():
+            if warm == "codec":
+                typelib.codec(mod.HolderV1)
+            elif warm == "unmarshaller":
+                typelib.unmarshaller(mod.HolderV1)
+            elif warm == "marshaller":
+                typelib.marshaller(mod.HolderV1)
+            elif warm == "static_order":
+                graph.static_order(mod.HolderV1)
+            elif warm == "routines":
+                typelib.unmarshaller(mod.HolderV1), typelib.marshaller(mod.HolderV1)
+        exec(compile(src2, mod.__file__, "exec", dont_inherit=True), mod.__dict__)
+        I1, H1, I2, H2, Root = mod.ItemV1, mod.HolderV1, mod.Item, mod.Holder, mod.Root
+
+        def mk(cls, **kw):
+            return dict(kw) if flav == "typeddict" else cls(**kw)
+
+        def item(rev_t, cls):
+            w, v = rng.choice(REV_LEAVES[rev_t])
+            return {"v": w}, mk(cls, v=v), {"v": REV_WIRE[rev_t](v)}
+
+        def holder(rev_t, icls, hcls):
+            (wx, vx, mx), (wy, vy, my) = item(rev_t, icls), item(rev_t, icls)
+            return {"x": wx, "y": wy}, mk(hcls, x=vx, y=vy), {"x": mx, "y": my}
+
+        def spare():
+            a = item(t1, I1)
+            if far == "ItemV1" or far.startswith("typing.Optional"):
+                return a
+            if far.startswith("list"):
+                b = item(t1, I1)
+                return [a[0], b[0]], [a[1], b[1]], [a[2], b[2]]
+            if far.startswith("dict"):
+                return {"k": a[0]}, {"k": a[1]}, {"k": a[2]}
+            b = item(t2, I2)
+            return [a[0], b[0]], (a[1], b[1]), [a[2], b[2]]
+
+        parts = {"old": holder(t1, I1, H1), "new": holder(t2, I2, H2), "spare": spare()}
+        wire = {f: parts[f][0] for f, _ in fields}
+        want = Root(**{f: parts[f][1] for f, _ in fields})
+        wantm = {f: parts[f][2] for f, _ in fields}
+        sh.count("revised_module_roots")
+        sh.eval(("revised", flav, t1, t2, far, warm, repr(wire)))
+        got = outcome(lambda w: typelib.unmarshal(Root, w), wire)
+        if got[0] != "ok" or ident(got[1]) != ident(want):
+            sh.violation("revised-name-member-by-other-rules", side="unmarshal", warmed=warm, flavour=flav, wire=repr(wire), expected=repr(want),
+                         got=repr(got)[:600], module_src=src1 + "# --- something was built for HolderV1 here, then the module went on: ---\n" + src2)
+            return
+        gotm = outcome(typelib.marshal, want)
+        if gotm[0] != "ok" or ident(gotm[1]) != ident(wantm):
+            sh.violation("revised-name-member-by-other-rules", side="marshal", warmed=warm, flavour=flav, value=repr(want), expected=repr(wantm),
+                         got=repr(gotm)[:600], module_src=src1 + "# --- something was built for HolderV1 here, then the module went on: ---\n" + src2)
+    finally:
+        sys.modules.pop(name, None)
+
+
 def canaries(sh):
     class Fake:
         def __init__(self):
@@ -342,6 +452,9 @@ def canaries(sh):
 def run_case(sh, i, plan):
     rng = case_rng(sh, i)
     clear_typelib_caches(also_typing=True)
+    if i % 12 == 5:
+        revised_module_case(sh, rng)
+        return
     opts = U.Opts(depth=rng.choice([2, 2, 3, plan["depth"]]), share_prob=0.4)
     extra = None
     caught = []
